@@ -27,6 +27,8 @@
      FailureSafe         a safe failure leaves the previous server (same connection where the
                          protocol allows) or a fallback                                (H2)
      KickFallsBack       a kick from the current server sends the player to a fallback (H3)
+     HealthyLands        a lone request to a backend that accepts it succeeds (so the player is
+                         on the destination): the switch machinery loses no join        (H4)
      GoneIsNowhere       once the client has left, no backend connection of the player stays
                          open and no server lists it, whatever was in flight          (S3) *)
 EXTENDS Naturals, Sequences, FiniteSets, TLC
@@ -38,8 +40,11 @@ svars == <<cur, att, calls, prev, since, env>>
 CfgPhase == env.cfg
 Fallbacks == env.fallbacks
 
-NoSince == [n |-> 0, succ |-> {}, failed |-> FALSE, kicked |-> FALSE, quit |-> FALSE, keep |-> TRUE, limbo |-> FALSE]
-Obs0(s) == [current |-> s, alive |-> TRUE, open |-> <<s>>, openids |-> <<"init">>, lists |-> {s}]
+NoSince == [n |-> 0, succ |-> {}, failed |-> FALSE, healthyFailed |-> FALSE, kicked |-> FALSE, quit |-> FALSE,
+            keep |-> TRUE, limbo |-> FALSE]
+Only(s) == IF s = "none" THEN <<>> ELSE <<s>>
+OnlySet(s) == IF s = "none" THEN {} ELSE {s}
+Obs0(s) == [current |-> s, alive |-> TRUE, open |-> Only(s), openids |-> Only("init"), lists |-> OnlySet(s)]
 
 SInit(s, e) == /\ cur = s /\ att = {} /\ calls = <<>> /\ prev = Obs0(s) /\ since = NoSince /\ env = e
 
@@ -94,6 +99,7 @@ Ret(t, status, beh) ==
          /\ since' = CASE status = "success" -> [since EXCEPT !.succ = @ \cup {c.s}]
                        [] status = "fail" ->
                             [since EXCEPT !.failed = TRUE,
+                                          !.healthyFailed = @ \/ beh \in {"accept", "stall"},
                                           !.keep = @ /\ (~CfgPhase \/ beh # "kickmid"),
                                           !.limbo = @ \/ (CfgPhase /\ beh = "kickmid" /\ c.api = "connect")]
                        [] OTHER -> since
@@ -106,9 +112,6 @@ Kick == /\ since' = [since EXCEPT !.kicked = TRUE]
 \* the client leaves the proxy (whatever attempts are under way)
 Quit == /\ since' = [since EXCEPT !.quit = TRUE]
         /\ UNCHANGED <<cur, att, calls, prev, env>>
-
-Only(s) == IF s = "none" THEN <<>> ELSE <<s>>
-OnlySet(s) == IF s = "none" THEN {} ELSE {s}
 
 ObsOk(o) ==
     /\ calls = <<>> /\ att = {}                                                  \* quiescence
@@ -129,6 +132,9 @@ ObsOk(o) ==
              /\ \/ (o.current = prev.current /\ (since.keep => o.openids = prev.openids))
                 \/ (~since.keep /\ o.current \in Fallbacks)
                 \/ (since.limbo /\ o.current = "none")
+    \* H4 HealthyLands: the only request since the last quiescent point went to a backend that
+    \* accepted it, nothing else happened -- it cannot have failed
+    /\ ~(prev.alive /\ ~since.quit /\ ~since.kicked /\ since.n = 1 /\ since.healthyFailed)
     /\ (prev.alive /\ ~since.quit /\ prev.current # "none" /\ since.n = 0 /\ since.kicked)               \* H3 KickFallsBack
           => IF Fallbacks \ {prev.current} = {} THEN ~o.alive
              ELSE o.alive /\ o.current \in Fallbacks \ {prev.current}
